@@ -12,6 +12,7 @@
    `dstep` and compares the outputs pass by pass (props/C04.py).  No proofs in this file. *)
 From Coq Require Import List NArith ZArith Bool.
 From PM Require Import Base.Bytes Base.Outcome Gen.GenConsts Model.ScriptAst Model.Enqueue Model.Script Model.Device Model.Client.
+From PM Require Model.Telnet.
 Import ListNotations.
 Local Open Scope Z_scope.
 
@@ -31,7 +32,8 @@ Record daemon : Type := mkDaemon {
   dm_clients : list dcli;                    (* cli_clients, list order *)
   dm_seq : Z;                                (* cli_id_seq *)
   dm_store : list arglist;                   (* the ArgLists ever created; a command / action refers to its slot *)
-  dm_version : text
+  dm_version : text;
+  dm_tel : list Telnet.tcp                          (* telnet filter state of each device (used by tcp transports only) *)
 }.
 
 (* what poll and the system calls answered for one client during the pass *)
@@ -40,9 +42,10 @@ Record cin : Type := mkCin {
   ci_in : bool;                  (* POLLIN | POLLHUP *)
   ci_out : bool;                 (* POLLOUT *)
   ci_read : option text;         (* read(): Some [] = end of file, None = error *)
-  ci_wrote : option nat          (* write(): bytes accepted, None = error *)
+  ci_wrote : option nat;         (* write(): bytes accepted, None = error *)
+  ci_flush_ok : bool             (* the blocking write of `quit` succeeds (false: EPIPE, the peer is gone) *)
 }.
-Definition cin0 : cin := mkCin false false false None None.
+Definition cin0 : cin := mkCin false false false None None true.
 
 Record round : Type := mkRound {
   r_now : Z;                     (* gettimeofday during the pass (microseconds) *)
@@ -118,7 +121,7 @@ Section D.
     end.
 
   (* _handle_input: every complete line of c->from goes through _parse_input *)
-  Fixpoint handle_input (fuel : nat) (st : daemon) (i : nat) (acc : list sysev) : outcome (daemon * list sysev) :=
+  Fixpoint handle_input (fuel : nat) (st : daemon) (i : nat) (flush_ok : bool) (acc : list sysev) : outcome (daemon * list sysev) :=
     match fuel with
     | O => Ok (st, acc)
     | S f =>
@@ -133,14 +136,14 @@ Section D.
           (* `quit`: _parse_input calls _handle_write at once, on a descriptor made blocking: everything queued
              (the 101 line included) is written before the client is destroyed at the end of this pass *)
           let quits := cl_quit c' && negb (cl_quit (dc x)) in
-          let x' := if quits then mkDcli (dc x0) (dc_from x0) [] else x0 in
-          let flushed := if quits then dc_to x0 else [] in
+          let x' := if quits && flush_ok then mkDcli (dc x0) (dc_from x0) [] else x0 in
+          let flushed := if quits && flush_ok then dc_to x0 else [] in
           let tele := cl_tele (dc x) in
           let args := length (dm_store st) in
           match (match q with [] => Ok (dm_devs st) | _ => enq_all (dm_devs st) q (cl_id (dc x)) tele args end) with
           | Ok devs' =>
             handle_input f (mkDaemon (cf_nodes cf') (dm_aliases st) (dm_specs st) (dm_pipe st) devs'
-                                     (upd_nth (dm_clients st) i (fun _ => x')) (dm_seq st) store' (dm_version st)) i
+                                     (upd_nth (dm_clients st) i (fun _ => x')) (dm_seq st) store' (dm_version st) (dm_tel st)) i flush_ok
                          (acc ++ match flushed with [] => [] | _ => [SysCliWrote (cl_id (dc x)) flushed] end)
           | Exit c s => Exit c s | Abort s => Abort s | MemErr s => MemErr s | Hang s => Hang s
           end
@@ -168,8 +171,8 @@ Section D.
                           end
                         else (x1, []) in
         let st1 := mkDaemon (dm_nodes st) (dm_aliases st) (dm_specs st) (dm_pipe st) (dm_devs st)
-                            (upd_nth (dm_clients st) i (fun _ => x2)) (dm_seq st) (dm_store st) (dm_version st) in
-        match handle_input (S (length (dc_from x2))) st1 i (match w with [] => [] | _ => [SysCliWrote (cl_id (dc x)) w] end) with
+                            (upd_nth (dm_clients st) i (fun _ => x2)) (dm_seq st) (dm_store st) (dm_version st) (dm_tel st) in
+        match handle_input (S (length (dc_from x2))) st1 i (ci_flush_ok ci) (match w with [] => [] | _ => [SysCliWrote (cl_id (dc x)) w] end) with
         | Ok (st2, evs) =>
           let dead := match nth_error (dm_clients st2) i with
                       | Some y => cl_quit (dc y) && (match cl_cmd (dc y) with None => true | Some _ => false end)
@@ -196,7 +199,7 @@ Section D.
         if dead then
           let id := match nth_error (dm_clients st1) i with Some y => cl_id (dc y) | None => 0 end in
           let st2 := mkDaemon (dm_nodes st1) (dm_aliases st1) (dm_specs st1) (dm_pipe st1) (dm_devs st1)
-                              (remove_nth (dm_clients st1) i) (dm_seq st1) (dm_store st1) (dm_version st1) in
+                              (remove_nth (dm_clients st1) i) (dm_seq st1) (dm_store st1) (dm_version st1) (dm_tel st1) in
           cli_loop st2 i r (acc ++ evs ++ [SysCloseCli id])
         else cli_loop st1 (S i) r (acc ++ evs)
       | Exit c s => Exit c s | Abort s => Abort s | MemErr s => MemErr s | Hang s => Hang s
@@ -218,7 +221,7 @@ Section D.
         let '(id, seq') := next_id (dm_seq st) in
         let c := new_client id (dm_version st) in
         (mkDaemon (dm_nodes st) (dm_aliases st) (dm_specs st) (dm_pipe st) (dm_devs st)
-                  (dm_clients st ++ [mkDcli c [] (cl_out c)]) seq' (dm_store st) (dm_version st), [SysAccept id])
+                  (dm_clients st ++ [mkDcli c [] (cl_out c)]) seq' (dm_store st) (dm_version st) (dm_tel st), [SysAccept id])
       else (st, []) in
     cli_loop st1 O (pad_cins (length (dm_clients st1)) (r_cli r)) e1.
 
@@ -232,7 +235,7 @@ Section D.
 
   Definition route (st : daemon) (e : ev) : outcome daemon :=
     let upd i x c := mkDaemon (dm_nodes st) (dm_aliases st) (dm_specs st) (dm_pipe st) (dm_devs st)
-                              (upd_nth (dm_clients st) i (fun _ => set_dc c x)) (dm_seq st) (dm_store st) (dm_version st) in
+                              (upd_nth (dm_clients st) i (fun _ => set_dc c x)) (dm_seq st) (dm_store st) (dm_version st) (dm_tel st) in
     match e with
     | EvComplete id err msg =>
       match find_cli (dm_clients st) id O with
@@ -265,7 +268,22 @@ Section D.
                 end
     end.
 
-  Definition passin0 : passin := mkPassin false false false false false None None true [].
+  Definition passin0 : passin := mkPassin false false false false false None None true [] None.
+
+  (* the preprocess method of the transport (device_tcp.c: the telnet filter) on the bytes this pass reads *)
+  Definition with_pre (pipe : bool) (t : Telnet.tcp) (pin : passin) : passin * Telnet.tcp :=
+    if pipe then (pin, t)
+    else match pi_read pin with
+         | Some (b0 :: br) =>
+             match Telnet.filter t (b0 :: br) with
+             | (t', kept, opts) =>
+                 (mkPassin (pi_hup pin) (pi_err pin) (pi_nval pin) (pi_out pin) (pi_in pin) (pi_read pin) (pi_wrote pin)
+                           (pi_finish_ok pin) (pi_plans pin) (Some (kept, flat_map Telnet.sendopt_bytes opts)), t')
+             end
+         | _ => (pin, t)
+         end.
+  Definition did_read (evs : list ev) : bool := existsb (fun e => match e with EvRead _ => true | _ => false end) evs.
+  Definition did_connect (evs : list ev) : bool := existsb (fun e => match e with EvConnect => true | _ => false end) evs.
 
   (* dev_post_poll: every device in configuration order; the callbacks run while the device is being processed.
      [n] = devices still to visit, [i] = index of the next one *)
@@ -277,10 +295,16 @@ Section D.
       match nth_error (dm_devs st) i with
       | None => Ok (st, tmo, acc)
       | Some d =>
-        match post_poll_one rmatch compress short_circuit now d (dm_store st) tmo (hd passin0 pins) with
+        let t0 := nth i (dm_tel st) Telnet.telnet_init in
+        let '(pin, t1) := with_pre (nth i (dm_pipe st) true) t0 (hd passin0 pins) in
+        match post_poll_one rmatch compress short_circuit now d (dm_store st) tmo pin with
         | Ok (d', store', tmo', evs) =>
+          (* _Telnet.telnet_init runs when a connect completes; otherwise the state moves only if the read took place *)
+          let t2 := if connected d' && (negb (connected d) || did_connect evs) then Telnet.telnet_init
+                    else if did_read evs then t1 else t0 in
           let st1 := mkDaemon (dm_nodes st) (dm_aliases st) (dm_specs st) (dm_pipe st) (upd_nth (dm_devs st) i (fun _ => d'))
-                              (dm_clients st) (dm_seq st) store' (dm_version st) in
+                              (dm_clients st) (dm_seq st) store' (dm_version st)
+                              (if Nat.ltb i (length (dm_tel st)) then upd_nth (dm_tel st) i (fun _ => t2) else dm_tel st) in
           match route_all st1 evs with
           | Ok st2 => dev_loop n' now st2 (S i) (tl pins) tmo' (acc ++ map (SysDev i) evs)
           | Exit a b => Exit a b | Abort s => Abort s | MemErr s => MemErr s | Hang s => Hang s
@@ -318,7 +342,7 @@ Section D.
   Definition dinit (st : daemon) (now : Z) (plans : list (list cplan)) : outcome (daemon * dout) :=
     match init_loop now (dm_devs st) plans O with
     | Ok (devs, evs) =>
-      Ok (mkDaemon (dm_nodes st) (dm_aliases st) (dm_specs st) (dm_pipe st) devs (dm_clients st) (dm_seq st) (dm_store st) (dm_version st),
+      Ok (mkDaemon (dm_nodes st) (dm_aliases st) (dm_specs st) (dm_pipe st) devs (dm_clients st) (dm_seq st) (dm_store st) (dm_version st) (dm_tel st),
           mkDout evs None)
     | Exit a b => Exit a b | Abort s => Abort s | MemErr s => MemErr s | Hang s => Hang s
     end.
